@@ -134,6 +134,7 @@ FLIP = {">": "<", ">=": "<="}
 
 LETS = {}             # name -> initialiser of the single immutable `let` of that name (set per function by guard_literals)
 _LET_DEPTH = []
+INLINE_METHODS = {}   # method name -> single-expression body; set only by rules that look at one impl block
 INLINE_FNS = {}      # name -> the single expression that is the body of that function (set by guards.inventory)
 _INLINING = []
 
@@ -218,6 +219,13 @@ def expr_skel(e):
     if k == "Field":
         return expr_skel(e["base"]) + "." + e["member"]
     if k == "MethodCall":
+        if e["method"] in INLINE_METHODS and not e["args"] and e["method"] not in _INLINING and len(_INLINING) < 4:
+            # `self.helper()` with a single-expression helper of the same impl stands for that expression
+            _INLINING.append(e["method"])
+            try:
+                return expr_skel(INLINE_METHODS[e["method"]])
+            finally:
+                _INLINING.pop()
         r = expr_skel(e["recv"])
         if e["method"] in NOOP_METHODS and not e["args"]:
             return r
